@@ -255,13 +255,13 @@ PROPS = {
         technique="Lean 4 theorems: canonical member order is the UTF-16 total order, sorted at every depth, members preserved, compact print = reference serializer; the number rendering is an explicit hypothesis tested against an independent ES6/IEEE reference",
         level_text=("PARTIAL proof. Proved in Lean for all values (model of canonicalize_with after the two fix: commits; the number canonicalizer nc is an opaque parameter): the comparison used to sort members is a total order "
                     "(total, transitive, antisymmetric — the latter via injectivity of UTF-16 encoding on scalar values) on keys compared as UTF-16 code-unit sequences (C09_total_order, C09_utf16_witness: U+10000 before U+E000); "
-                    "the canonical value has every object sorted by it at every depth (C09_sorted_partial) and each object is a rearrangement of its canonicalized members (C09_members_partial); compact printing of the result is the minimal-escape, no-whitespace reference serializer (C09_print). "
+                    "the canonical value has every object sorted by it at every depth (C09_sorted_partial) and each object is a rearrangement of its canonicalized members (C09_members_partial); compact printing of the result is the minimal-escape, no-whitespace reference serializer (C09_print). C09_characterisation states the whole of RFC 8785 3.2 except the rendering of one number declaratively and with uniqueness: the canonical value is the input with every number respelled by nc, up to member order at every depth (nothing dropped, added or merged), all numbers canonical, every object sorted by UTF-16 units — and it is the ONLY value with these three properties (nc idempotent). "
                     "NOT provable with what is installed: nc = ES6 shortest round-trip rendering of the nearest double (IEEE-754 rounding of arbitrary decimals + shortest-digit generation live in two dependencies and have no formalisation here). "
                     "It is stated as C09_number_hypothesis and tested on every run: 30k (thorough 200k) number spellings — 18-40 digit decimals, near-halfway spellings, subnormals, the 1e21/1e-6 thresholds, RFC 8785 vectors — "
                     "against correctly rounded str::parse + an ECMA-262 layout written independently, with exact-tie resolution by integer arithmetic; and whole I-JSON values against an independent JCS serializer."),
         level_note="Trusted: Lean kernel; model validated by correspondence (numbers through a per-request table produced by the real code); Rust std float parsing/formatting as the number oracle; ryu-js, json-number not modelled.",
         rule="request = value (+ table spelling->canonical for its numbers); reply = canonical value. Streams: RFC vectors, number spellings, all ordered key pairs over 11 boundary characters, generated I-JSON values (keys across the U+E000..U+FFFF / supplementary region), some non-I-JSON values. Non-trivial = containers; distinct request lines",
-        strength="partial: ordering/structure proved; number rendering assumed and tested",
+        strength="partial only by the dependency: ordering, structure, escaping proved with a uniqueness characterisation; the rendering of a number (ryu-js / json-number) is a tested hypothesis",
         trusted_base=COMMON_TRUST + ["Rust std `str::parse::<f64>` is correctly rounded; `{:e}` prints shortest round-trip digits", "ryu-js / json-number (opaque)"],
         assumptions=["C09_number_hypothesis: nc n = ES6 rendering of the double nearest to n"],
     ),
@@ -272,11 +272,13 @@ PROPS = {
         level_text=("PARTIAL proof. Proved in Lean for all values: C10_idempotent (given nc idempotent): canonicalizing twice = once, because the result is sorted at every depth with fixed-point numbers and such values are fixed points; "
                     "C10_member_order / C10_permutation: values equal up to permutation of object entries at ANY depth (the PermEq relation of C15) have identical canonical forms (a sorted permutation under a total antisymmetric order is unique); "
                     "C10_preserves: null/bool/string untouched, arrays mapped item-wise in order, objects keep their size and multiset of keys. "
-                    "Hypotheses on the opaque number canonicalizer (idempotent; equal on numerically equal spellings) are tested with exact respellings (exponent shifts, trailing zeros, E/e/+). Whitespace/escape blindness is a property of parsing (C02) and is "
+                    "C10_order_and_numbers: member order at any depth AND number spelling together — two values that are PermEq once every number is replaced by its nc-spelling canonicalize identically (canon_mapNumbers). "
+                    "C10_documents / C10_whitespace_and_escapes: the document-level clause — for two texts whose grammar contents (GDoc, the relation of C01/C02, in which whitespace and the choice of escapes are the only freedom for a fixed content) are equal up to member order and number spelling, parsing under every option record succeeds on both and canonicalize-then-compact-print is byte-identical (composition with parse_complete). "
+                    "What remains a hypothesis is only the behaviour of the opaque number canonicalizer (idempotent; equal on numerically equal spellings), tested with exact respellings (exponent shifts, trailing zeros, E/e/+). The whitespace/escape clause is additionally "
                     "tested end-to-end (pretty print + \\u-escape rewriting + re-parse + canonicalize); key lookups after canonicalization are tested on every generated case and follow from C06_sort for the model."),
         level_note="Trusted: as C09.",
         rule="as C09; every I-JSON case is additionally canonicalized twice, deep-shuffled, respelled, re-escaped and queried by key on the real code",
-        strength="partial: structure/idempotence/permutation proved; number hypotheses and whitespace/escape clause tested",
+        strength="partial only by the dependency: idempotence, member order, whitespace/escapes (document level) proved; the number canonicalizer (ryu-js/json-number) enters as a tested hypothesis",
         trusted_base=COMMON_TRUST,
         assumptions=["nc idempotent; nc equal on numerically equal spellings"],
     ),
@@ -372,15 +374,16 @@ PROPS = {
     "C18": dict(
         tables=[],
         determined=False,
-        technique="Lean 4 theorem: serde_json -> json-syntax -> serde_json is the identity on every well-formed serde_json value given number text round trip (sorted-map insertion lemma); both directions executed under catch_unwind over all three serde_json number representations (direct oracles)",
-        level_text=("PARTIAL proof. Model of both conversions with serde_json numbers and their text conversions as opaque parameters. Proved in Lean (C18_from_into): for every serde_json value (objects = BTreeMaps, keys strictly ascending) converting into a json-syntax value and back returns the same serde_json value, "
-                    "given that a serde_json number's text converts back to the same number (NumRoundTrip — after the fix: commit the way back is u64/i64 parsing or the correctly rounded str::parse::<f64>; tested); C18_into_total: the into direction is total, a number without serde_json counterpart becomes null (the former panic is repaired). "
-                    "The number functions make the model non-executable for the correspondence, so every case is decided by direct oracles on the real code under catch_unwind: both round trips on generated values incl. u64::MAX, i64::MIN, -0.0, subnormals, huge/tiny doubles, 1e400, arbitrary strings/keys, nesting, and values built from serde_json::json! with random u64/i64/f64."),
-        level_note="Trusted: Lean kernel; serde_json (Number printing/parsing, Map = BTreeMap), std float parsing; the model is tied to the code by the oracles only (numbers are opaque).",
-        rule="request = a json-syntax value (also obtained from serde_json values); oracle-only (model replies skip). evaluations = cases executed; distinct request lines",
-        strength="partial: from∘into identity proved modulo number hypothesis; the rest tested",
+        technique="Lean 4 theorems over a model of both conversions with the code's number dispatch (as_u64, as_i64, float leg) and a BTreeMap model: serde_json -> json-syntax -> serde_json is the identity (integers with no hypothesis, floats given print/parse round trip of the dependency); json-syntax -> serde_json -> json-syntax is equal up to entry order and number respelling for every value without duplicate keys; model executed against the real code with the float leg shipped as a table computed from the dependencies alone; both directions under catch_unwind (direct oracles)",
+        level_text=("FULL proof on the model up to the float dependency. Model: both conversions, BTreeMap insertion (mapInsert), String key order (strLt), serde_json::Number = PosInt | NegInt | Float (SjNum) and the number arm of into_serde_json (sjConv: str::parse::<u64>, then ::<i64> with From<i64> keeping the sign, then the float leg). "
+                    "C18_from_into / C18_from_into_code: for every serde_json value (keys strictly ascending, numbers in their representation invariant) converting into a json-syntax value and back returns the same value; C18_integers_exact: every u64 and every negative i64 converts back to itself with NO hypothesis (u64::MAX and i64::MIN included); for floats the hypothesis is about serde_json/std alone (a double prints with '.' or an exponent and parses back to itself), tested on every run. "
+                    "C18_into_from: for EVERY json-syntax value without duplicate keys at any depth, the value that comes back is equal up to entry order at every level (PermEq, the relation of C15) to the original with each number replaced by the text of the serde_json number it converts to (null exactly when it has none, i.e. outside the property's domain) — no hypothesis on the map order or on numbers; C18_number_same: the respelled number converts to the same serde_json number (same integer or same double); C18_conv_in_invariant; C18_into_total: the into direction is total, a number without serde_json counterpart becomes null (the former panic is repaired). "
+                    "Tie to /repo: every case is executed on the real code and on the model — the model computes the whole there-and-back value itself (structure, key order, duplicate handling, integer dispatch), only the float leg being read from a table the harness computes with std's str::parse::<f64>, Number::from_f64 and Display directly, not through /repo's code; plus direct oracles under catch_unwind: both round trips on generated values incl. u64::MAX, i64::MIN, -0.0, subnormals, huge/tiny doubles, 1e400, plain decimals of every fraction length x leading-zero count, arbitrary strings/keys, nesting, and values built from serde_json::json! with random u64/i64/f64."),
+        level_note="Trusted: Lean kernel; serde_json (Number printing/parsing, Map = BTreeMap) and std float parsing for the float leg (hypothesis FloatOk, tested); model validated by correspondence.",
+        rule="request = a json-syntax value (also obtained from serde_json values) + the float-leg table of its non-integer numbers; reply = the value after json-syntax -> serde_json -> json-syntax, compared between the real code and the model; evaluations = cases executed; distinct request lines",
+        strength="full on the model up to the float dependency (print/parse round trip of doubles in serde_json/std is a tested hypothesis)",
         trusted_base=COMMON_TRUST + ["serde_json"],
-        assumptions=["NumRoundTrip: serde_json::Number -> text -> serde_json::Number is the identity"],
+        assumptions=["float leg: serde_json prints a double with '.' or an exponent and str::parse::<f64> of that text gives the double back (SjNum.WF … (.float t))"],
     ),
 
     "C19": dict(
